@@ -155,6 +155,20 @@ func init() {
 			return rc
 		}})
 
+	// C14 at L2: the batch a reconciliation takes from the watchers reaches the services (class changes make
+	// full-kind and partial-kind events share batches)
+	register(&Profile{Name: "handoff-l2", Prop: "C14", Weight: 1,
+		Oracles: OracleSet{Property: "C14", Handoff: true},
+		Build: func(seed uint64, tier string) *RunConfig {
+			r := cfgRng(seed)
+			mn, mx := tierOps(tier, 6, 18)
+			rc := &RunConfig{Property: "C14", Profile: "handoff-l2", Seed: seed, Ctl: sampleCtl(r), Lagfree: r.IntN(2) == 0, MidSched: r.IntN(2) == 0}
+			w := map[string]int{"class_change": 12, "ing_create": 6, "ing_update": 10, "ing_delete": 4, "ing_ann": 6, "svc_update": 4, "ep_scale": 8, "secret_rotate": 4, "global_change": 4, "renotify": 3, "advance": 4}
+			rc.World, rc.Ops = GenerateRun(seed, GenOptions{Sparse: r.IntN(2) == 0, ExcludeIngressKeys: alwaysExcludedIngressKeys, MinOps: mn, MaxOps: mx,
+				QuiesceEvery: pickInt(r, 4, 8), KeysPerRun: 4, W: w})
+			return rc
+		}})
+
 	// ---------------- C05: files on disk hold exactly the current model
 	register(&Profile{Name: "shards", Prop: "C05",
 		Oracles: OracleSet{Property: "C05", FreshEveryRec: true},
@@ -318,6 +332,7 @@ func init() {
 			mn, mx := tierOps(tier, 4, 16)
 			ctl := sampleCtl(r)
 			ctl.ReloadRetryMs = pickInt(r, 2000, 5000)
+			ctl.TrackOldInstances = r.IntN(4) == 0 // --track-old-instances: a connection to the outgoing process is taken before each reload
 			rc := &RunConfig{Property: "C12", Profile: "faults", Seed: seed, Ctl: ctl, MapOrder: r.IntN(2) == 0, Lagfree: r.IntN(2) == 0, MidSched: r.IntN(2) == 0}
 			rc.Faults = map[string]int{}
 			n := 1 + r.IntN(3)
